@@ -387,11 +387,37 @@ def r04d(ctx, rep, cr):
     rep.floor('R04d', 'index key comparators that order floats', n, 1)
 
 
+def r04e(ctx, rep, cr):
+    rep.rule('R04e', 'candidate sets are combined without assuming an order: a function of relational_engine that compares an element '
+                     'of one integer list with an element of another for order (the two-cursor merge / intersection shape) sorts both '
+                     'lists itself first. Hash-index posting lists are in insertion order — an UPDATE re-appends an old row id behind newer '
+                     'ones — so a merge over them skips ids and the index path returns fewer rows than a scan')
+    n = 0
+    nf = 0
+    for name, f in sorted(cr.fns.items()):
+        nf += 1
+        for k, (line, a_, b_, sa, sb) in enumerate(lib.merge_compare_sites(f)):
+            n += 1
+            rep.analysed(f)
+            if sa and sb:
+                rep.holds('R04e', f, 'merge#%d' % k, 'both inputs sorted in the function')
+            else:
+                rep.violation('R04e', f, 'merge-on-unsorted', f.loc(line),
+                              'elements of two id lists are compared for order (a sorted-merge) but the lists are not sorted in this '
+                              'function: on posting lists in insertion order (e.g. [2, 3, 1] after an update) the merge skips matching ids, '
+                              'so select / count through the index drop rows a scan returns')
+    rep.notes.append('R04e: %d functions scanned, %d merge-shaped comparison(s)' % (nf, n))
+    rep.floor('R04e', 'relational_engine functions scanned for merge-shaped comparisons', nf, 300)
+    if n == 0:
+        rep.holds('R04e', 'relational_engine', 'merge-shaped comparisons', 'none in the crate')
+
+
 def run(ctx, rep):
     cr = ctx.crate('relational_engine')
     r04a(ctx, rep, cr)
     r04b(ctx, rep, cr)
     r04c(ctx, rep, cr)
     r04d(ctx, rep, cr)
+    r04e(ctx, rep, cr)
     import c09
     c09.r09f(ctx, rep, cr)   # index maintenance order: an index must keep answering what a scan answers
